@@ -49,6 +49,7 @@ func genC16Plan(r *sim.Rng, tier string) RelayPlan {
 		Republish:      0.7,
 		HeaderChange:   0.05,
 		TsWeird:        0.05,
+		NalKinds:       0.1,
 		BigUnits:       0.05,
 		ZeroLen:        0.01,
 		ShapeAudioOnly: 0.3,
